@@ -1,12 +1,23 @@
 module symgo
 
-go 1.23
+go 1.23.0
+
+toolchain go1.23.5
 
 require golang.org/x/tools v0.29.0
 
 require (
 	golang.org/x/mod v0.22.0 // indirect
-	golang.org/x/sync v0.10.0 // indirect
+	golang.org/x/sync v0.12.0 // indirect
 )
 
 require github.com/pelletier/go-toml v1.9.5
+
+require github.com/weppos/publicsuffix-go v0.40.3-0.20250127173806-e489a31678ca
+
+require (
+	golang.org/x/net v0.38.0
+	golang.org/x/text v0.23.0
+)
+
+replace golang.org/x/sync => golang.org/x/sync v0.10.0
